@@ -30,7 +30,9 @@ ASSUMPTIONS = [
     'declared Parameters are plain param.Parameter(default=<object>, constant=, readonly=, allow_refs=) with all flags explicit; values are str objects identified by creation index '
     '(pairs of equal but non-identical strings in the pool), None (one pool index) and one int object that only `name` (a String) rejects with ValueError — validation runs before the guard',
     'asynchronous references: only `async def f(): return v` assigned with no event loop running (resolved synchronously inside the assignment) to allow_refs=True parameters; '
-    'a running loop, async generators and Parameter/rx references are outside the model (C08/C10)',
+    'a running loop, async generators and Parameter/rx references are outside the model (C08/C10); one further object is a `param.depends` function raising param.Skip, '
+    'used only as a constructor keyword (a reference with nothing to deliver yet: an allow_refs parameter stores nothing); later successful assignments to the '
+    'allow_refs parameters of such an instance (relinking instantiates the Parameters of its other links) are redirected by the generator and outside the model',
     'the namespace cache coincides with attribute lookup (C13; no add_parameter here); watchers, references, per_instance=False and '
     'no_instance_params classes, Parameter-valued class assignment and edits of `readonly` are outside the model',
     'blocks are observed as one step (the state inside a body is not observed)',
@@ -52,7 +54,7 @@ COVERAGE_TARGETS = [
     'flag:ok:makes-copy', 'flag:ok:has-copy', 'clsFlag:ok', 'getParam:ok:makes-copy', 'getParam:KeyError:makes-copy',
     'block:ok:depth1', 'block:ok:depth2', 'block:RuntimeError:depth1', 'block:RuntimeError:depth2', 'block:TypeError:depth1', 'block:ok:depth3',
     'body:local', 'body:foreign-instance', 'body:class-set', 'body:copy-created-inside', 'assign:equal-not-identical', 'assign:identical',
-    'shape:chain2', 'shape:chain3', 'shape:fork', 'shape:tree', 'default:None-constant',
+    'shape:chain2', 'shape:chain3', 'shape:fork', 'shape:tree', 'default:None-constant', 'kwarg:silent-reference',
     'setName:ok', 'setName:ValueError:invalid', 'genName:ok', 'failingEntry:RuntimeError:constant', 'failingEntry:ok:plain',
     'instSet:ValueError:constant:makes-copy', 'instSetAsync:TypeError:constant', 'instSetAsync:ok:constant', 'instSetAsync:ok:plain', 'instSetAsync:skip:constant',
 ]
@@ -61,6 +63,8 @@ NAMES = ['c', 'r', 'v', 'a', 'b', 'name']
 NPOOL = 10
 NONE = NPOOL - 1     # the pool object with this index is None itself
 BAD = NPOOL - 2      # the pool object with this index is an int: the String parameter `name` rejects it
+SILENT = NPOOL       # one more object past the pool the generators draw values from: a `param.depends` function that raises
+                     # param.Skip — a reference with nothing to deliver yet (only ever used as a constructor keyword)
 SHAPES = {'chain2': [[], [0]], 'chain3': [[], [0], [1]], 'fork': [[], [0], [0]], 'tree': [[], [0], [0], [1]]}
 
 
@@ -82,7 +86,7 @@ STDN = [['c', True, False, NONE, False], ['r', False, True, 2, False], ['v', Fal
 
 def _mk(shape, decls, steps):
     bases = SHAPES[shape]
-    return {'shape': shape, 'names': NAMES, 'npool': NPOOL, 'bad': [BAD],
+    return {'shape': shape, 'names': NAMES, 'npool': NPOOL + 1, 'bad': [BAD, SILENT], 'silent': [SILENT],
             'classes': [{'bases': bases[k], 'mro': _MRO[shape][k], 'decl': decls[k]} for k in range(len(bases))],
             'steps': steps}
 
@@ -98,9 +102,20 @@ def run_impl(case):
     names = case['names']
     # value objects: pool[2j] == pool[2j+1] but they are different objects
     okeep = [''.join(['v', str(k // 2)]) for k in range(case['npool'])]
-    okeep[case['npool'] - 1] = None          # the last pool object is None (a value, not "absent")
+    none_idx = case['npool'] - 1 - len(case.get('silent', []))
+    okeep[none_idx] = None                   # a pool object that is None (a value, not "absent")
     for k in case.get('bad', []):
         okeep[k] = int('31337') + k           # not a string: rejected by `name` (a String), accepted by the others
+    if case.get('silent'):
+        class _Src(param.Parameterized):
+            v = param.Parameter(0)
+        _src = _Src()
+
+        @param.depends(_src.param.v)
+        def _silent(v):
+            raise param.Skip
+        for k in case['silent']:
+            okeep[k] = _silent                # a reference with nothing to deliver yet
     ABSENT = object()
     oreg = {id(o): k for k, o in enumerate(okeep)}
     if len(oreg) != len(okeep):
@@ -370,6 +385,11 @@ def _directed():
     out.append(('chain2', D2, [N(1), GN(0), S(0, 'c', 6), S(0, 'name', 6), SN(0, 5), S(0, 'c', 6), S(0, 'name', 6), SS(0, 'name'),
                                G(0, 'name'), SN(0, 4), S(0, 'name', 4), U(0, ('c', 6)), B(0, GN(0), S(0, 'c', 7)), S(0, 'c', 8),
                                N(1), GN(1), A(1, 'a', 3), GN(7), SN(7, 1)]))
+    # a constructor keyword that is a reference with nothing to deliver yet: constants are referenced all the same
+    out.append(('chain2', D2, [N(1, ('a', SILENT)), N(1, ('a', SILENT), ('b', SILENT), ('c', 1)), CS(0, 'a', 3), CS(1, 'a', 5),
+                               S(0, 'a', 5), S(0, 'a', 6), S(1, 'a', 2), N(1, ('c', SILENT)), N(1, ('name', SILENT)),
+                               N(1, ('r', SILENT)), B(0, N(1, ('a', SILENT))), CS(0, 'b', 1), S(0, 'c', 6), G(0, 'b'),
+                               F(1, 'b', True), CS(1, 'b', 2)]))
     # validation comes before the guard; a rejected renaming leaves the object locked (0d30e59)
     out.append(('chain2', D2, [N(1), SN(0, BAD), S(0, 'c', 6), S(0, 'name', 6), S(0, 'name', BAD), S(0, 'v', BAD), S(0, 'c', BAD),
                                U(0, ('v', 1), ('name', BAD), ('c', 6)), CS(1, 'name', BAD), CS(1, 'c', BAD), N(1, ('name', BAD)),
@@ -385,7 +405,7 @@ def _directed():
 
 def _alphabet():
     """top-level statements after the prefix [K1(), K1(c=...)] on chain2"""
-    a = [GN(0), SN(0, 5), SN(0, BAD), FE(0, 'c'), FE(0, 'a'), A(0, 'a', 3), A(0, 'b', 3), B(0, A(0, 'a', 3)), S(0, 'c', 6), S(0, 'c', 0), S(0, 'c', 1), S(0, 'r', 6), S(0, 'v', 6), S(1, 'c', 6), SS(0, 'c'), SS(0, 'r'),
+    a = [N(1, ('a', SILENT)), GN(0), SN(0, 5), SN(0, BAD), FE(0, 'c'), FE(0, 'a'), A(0, 'a', 3), A(0, 'b', 3), B(0, A(0, 'a', 3)), S(0, 'c', 6), S(0, 'c', 0), S(0, 'c', 1), S(0, 'r', 6), S(0, 'v', 6), S(1, 'c', 6), SS(0, 'c'), SS(0, 'r'),
          U(0, ('c', 6)), U(0, ('v', 6), ('c', 7)), CS(0, 'c', 6), CS(1, 'c', 7), CS(1, 'r', 6), CS(1, 'v', 6),
          G(0, 'c'), G(1, 'c'), F(0, 'c', False), F(0, 'v', True), {'op': 'clsFlag', 'c': 1, 'n': 'c', 'b': False},
          N(1), N(1, ('r', 6)),
@@ -441,7 +461,8 @@ def _any_op(rng, ctx, depth=0, in_body=False):
     if r < 0.12 or ninst == 0:
         if in_body and rng.random() < 0.8:
             return S(i, n, v)
-        kw = [[m, rng.randrange(NPOOL)] for m in NAMES if rng.random() < 0.2]
+        kw = [[m, SILENT if m in ('a', 'b') and ctx.get('silent') and rng.random() < 0.5 else rng.randrange(NPOOL)]
+              for m in NAMES if rng.random() < (0.4 if ctx.get('silent') and m in ('a', 'b') else 0.2)]
         if rng.random() < 0.04:
             kw.append(['q', 1])
         ctx['ninst'] += 1
@@ -471,6 +492,33 @@ def _any_op(rng, ctx, depth=0, in_body=False):
     return S(i, n, v)
 
 
+def _sanitize(ops):
+    """An instance constructed with a silent reference keeps that link; a later *successful* assignment to one of its
+    allow_refs parameters relinks (`_update_ref`), which also instantiates the Parameters of the remaining links — outside
+    the model.  Instance indices shift when a constructor call of the history fails, so in a history that contains such a
+    constructor call every assignment to the allow_refs parameters `a`/`b` is redirected to the plain parameter `v`."""
+    def has_silent(ops):
+        return any((op['op'] == 'newInst' and any(v == SILENT for _, v in op['kw'])) or
+                   (op['op'] == 'block' and has_silent(op['body'])) for op in ops)
+
+    def fix(ops):
+        out = []
+        for op in ops:
+            op = dict(op)
+            o = op['op']
+            if o == 'block':
+                op['body'] = fix(op['body'])
+            elif o in ('instSet', 'instSetSame') and op['n'] in ('a', 'b'):
+                op['n'] = 'v'
+            elif o == 'instSetAsync':
+                op = S(op['i'], 'v', op['v'])
+            elif o == 'update':
+                op['kvs'] = [kv for kv in op['kvs'] if kv[0] not in ('a', 'b')] or [['v', 0]]
+            out.append(op)
+        return out
+    return fix(ops) if has_silent(ops) else ops
+
+
 def _random_case(rng):
     shape = rng.choice(list(SHAPES))
     ncls = len(SHAPES[shape])
@@ -482,9 +530,9 @@ def _random_case(rng):
         if rng.random() < 0.1:
             d.append(['r', False, rng.random() < 0.7, rng.randrange(NPOOL), False])
         decls.append(d)
-    ctx = {'ncls': ncls, 'ninst': 0}
+    ctx = {'ncls': ncls, 'ninst': 0, 'silent': rng.random() < 0.15}
     ops = [_any_op(rng, ctx) for _ in range(rng.randint(2, 22))]
-    return _mk(shape, decls, ops)
+    return _mk(shape, decls, _sanitize(ops))
 
 
 def cases(rng, tier, worker, nworkers):
@@ -506,7 +554,7 @@ def cases(rng, tier, worker, nworkers):
         for combo in itertools.product(*pools):
             i += 1
             if i % nworkers == worker:
-                yield _mk('chain2', [STD, []], [dict(o) for o in prefix + list(combo)])
+                yield _mk('chain2', [STD, []], _sanitize([dict(o) for o in prefix + list(combo)]))
     n_random = 2500 if tier == 'quick' else 48000 // nworkers
     for _ in range(n_random):
         yield _random_case(rng)
@@ -527,7 +575,11 @@ def _touches(op):
 
 def tags(case, impl):
     t = ['shape:' + case['shape'], f'len={min(len(case["steps"]), 10)}' + ('+' if len(case['steps']) >= 10 else '')]
-    if any(d[0] in ('c', 'a') and d[1] and d[3] == case['npool'] - 1 for cd in case['classes'] for d in cd['decl']):
+    if any(d[0] in ('c', 'a') and d[1] and d[3] == NONE for cd in case['classes'] for d in cd['decl']):
+        t.append('default:None-constant')
+    if any(op['op'] == 'newInst' and any(v == SILENT for _, v in op['kw']) for op, _, _, _ in _walk(case['steps'])):
+        t.append('kwarg:silent-reference')
+    if False:
         t.append('default:None-constant')
     for op, depth, owner, _ in _walk(case['steps']):
         if depth:
@@ -546,7 +598,7 @@ def tags(case, impl):
                 t.append('body:copy-created-inside')
             if op['op'] == 'instSet' and op['i'] < len(prev['inst']) and op['n'] in case['names']:
                 h = prev['inst'][op['i']]['rows'][case['names'].index(op['n'])][0]
-                if h is not None and op['v'] != h and op['v'] // 2 == h // 2 and max(h, op['v']) < case['npool'] - 2:
+                if h is not None and op['v'] != h and op['v'] // 2 == h // 2 and max(h, op['v']) < BAD:
                     t.append('assign:equal-not-identical')
                 if h == op['v']:
                     t.append('assign:identical')
@@ -613,6 +665,18 @@ def classify(case, impl, fail):
     if fail.get('kind') != 'counterexample' or not isinstance(impl, dict) or 'steps' not in impl:
         return None
     why = str(fail.get('why'))
+    m0 = re.match(r"step (\d+): forbidden: (?:assignment|async reference assigned) to protected '(\w+)' of instance (\d+) ended with ok", why)
+    if m0:
+        # late-flag family: nothing is stored on the instance, so the guard compares with the stale default of the
+        # per-instance copy, not with the object the instance reads from the class
+        k, n2, j2 = int(m0.group(1)), m0.group(2), int(m0.group(3))
+        before = impl['steps'][k - 1] if k else impl['init']
+        if n2 in case['names'] and n2 != 'name' and j2 < len(before['inst']):
+            row = before['inst'][j2]['rows'][case['names'].index(n2)]
+            late = [o for o, _, _, _ in _walk(case['steps'][:k]) if o['op'] in ('flag', 'clsFlag') and o['n'] == n2 and o['b']]
+            if row[1] is None and row[2] is not None and late:
+                return 'constant-flag-set-later-value-not-referenced-on-instance'
+        return None
     m = re.match(r'step (\d+): ([\w-]+): (class|instance) (\d+) \'(\w+)\'', why)
     if not m:
         return None
